@@ -123,6 +123,9 @@ def add(x, y):
                 low = [(v >> i) & 1 for i in range(L)]
             else:
                 low = ['?'] * L
+                # b + b = 2b: identical (known-symbolic) lowest bits cancel to 0
+                if L > 0 and x.bits[0] == y.bits[0] and x.bits[0] != '?':
+                    low[0] = 0
             return AV(w, low + x.bits[L:], x.lo + y.lo, min(x.hi + y.hi, (1 << w) - 1))
     # interval reasoning modulo 2^w: both ends wrap the same number of times
     lo, hi = x.lo + y.lo, x.hi + y.hi
@@ -180,7 +183,12 @@ class Evaluator:
             a = self.ev(n.args[0]); w2 = int(n.ty[1:])
             return AV(w2, a.bits + [a.bits[-1]] * (w2 - a.w))
         if op == 'add':
-            return add(self.ev(n.args[0]), self.ev(n.args[1]))
+            r = add(self.ev(n.args[0]), self.ev(n.args[1]))
+            # x + (x & 1) is always even
+            for x, b in ((n.args[0], n.args[1]), (n.args[1], n.args[0])):
+                if b.op == 'and' and any(a is x for a in b.args) and any(a.op == 'const' and a.attr[1] == 1 for a in b.args):
+                    r = AV(r.w, [0] + r.bits[1:], r.lo, r.hi)
+            return r
         if op == 'sub':
             a, b = self.ev(n.args[0]), self.ev(n.args[1])
             if b.known():
